@@ -18,6 +18,28 @@ func main() {
 	switch os.Args[1] {
 	case "func":
 		cmdFunc(os.Args[2:])
+	case "loops":
+		e, err := engine.Load("/repo", "/verif", []string{"./..."})
+		if err != nil {
+			fmt.Println(err)
+			os.Exit(2)
+		}
+		var keys []string
+		for k := range e.Contracts {
+			keys = append(keys, k)
+		}
+		sort.Strings(keys)
+		for _, k := range keys {
+			fn := e.Funcs[k]
+			if fn == nil || fn.Blocks == nil {
+				continue
+			}
+			for _, b := range fn.Blocks {
+				if strings.HasSuffix(b.Comment, ".loop") {
+					fmt.Printf("%s\t%s\tblock %d\n", k, b.Comment, b.Index)
+				}
+			}
+		}
 	case "sweep":
 		cmdSweep(os.Args[2:])
 	case "list":
